@@ -18,6 +18,17 @@ def run(prop, seed, budget_s, broken):
     if fn is None:
         return None
     rng = random.Random(seed ^ 0x5EA4C4)
+    # first: is the property itself violated on the very inputs on which model and code differ?
+    seed_fn = globals().get("seed_" + prop)
+    if seed_fn is not None:
+        for m in broken.get("correspondence_mismatches", []):
+            try:
+                r = seed_fn(m)
+            except Exception:  # noqa: BLE001
+                r = None
+            if r:
+                r["from_correspondence_mismatch"] = True
+                return r
     return fn(rng, time.time() + budget_s, broken)
 
 
@@ -1273,3 +1284,195 @@ def search_C14(rng, deadline, broken):
 def replay_C14(fi):
     return _c14_one(fi["latitude"], fi["longitude"], datetime.date.fromisoformat(fi["date"]),
                     _zone_from_descr(fi["zone"]), fi["which"]) is None
+
+
+
+# ------------------------------------------------------------------ seeds from mismatches
+def _dt_from_descr(inp):
+    """rebuild the datetime argument of an angle case (zone label, fold)"""
+    import zones
+    dt = datetime.datetime.fromisoformat(inp["datetime"])
+    zl = inp.get("zone", "naive")
+    if zl == "naive":
+        return dt
+    base = zl.replace(" fold", "")
+    if base == "UTC":
+        return dt
+    z = _zone_from_descr(base)
+    naive = dt.replace(tzinfo=None)
+    return naive.replace(tzinfo=z.tzinfo, fold=inp.get("fold", 0))
+
+
+def _angle_spelling_check(mod_fn, o, dt, what):
+    """the angle for `dt` must equal the angle for the same instant as naive UTC — asked in both
+    orders and for both folds, so that a cache keyed on equal-comparing datetimes shows up"""
+    if dt.tzinfo is None:
+        return None
+    twin = dt.replace(fold=1 - dt.fold)
+    for a in (dt, twin, dt):
+        ref = mod_fn(o, a.astimezone(datetime.timezone.utc).replace(tzinfo=None))
+        got = mod_fn(o, a)
+        dv = abs(got - ref)
+        if what == "azimuth":
+            dv = min(dv, 360.0 - dv)
+        if dv > 1e-6:
+            return "%s %r for %s (fold=%d) but %r for the same instant as naive UTC" % (
+                what, got, a.isoformat(), a.fold, ref)
+    return None
+
+
+def seed_C12(m):
+    import astral.moon as moon
+    from astral import Observer
+    inp = m["input"]
+    fn = m["function"].split(".")[-1]
+    if fn not in ("azimuth", "elevation", "zenith"):
+        return None
+    o = Observer(inp["latitude"], inp["longitude"])
+    dt = _dt_from_descr(inp)
+    v = getattr(moon, fn)(o, dt)
+    if fn == "azimuth" and not (0.0 <= v < 360.0):
+        return {"clause": "azimuth %r outside [0, 360)" % v, "latitude": inp["latitude"],
+                "longitude": inp["longitude"], "utc": inp["datetime"], "zone": "fixed+0"}
+    r = _angle_spelling_check(getattr(moon, fn), o, dt, fn)
+    if r:
+        return {"clause": r, "input": inp}
+    return None
+
+
+def seed_C08(m):
+    import astral.sun as sun
+    inp = m["input"]
+    fn = m["function"]
+    if fn not in ("azimuth", "elevation", "zenith"):
+        return None
+    o = _obs_from_descr(inp["observer"])
+    dt = _dt_from_descr(inp)
+    r = _angle_spelling_check(getattr(sun, fn), o, dt, fn)
+    if r:
+        return {"clause": r, "input": inp}
+    return None
+
+
+def _seed_sun_event(m, checker):
+    inp = m["input"]
+    if "observer" not in inp or "date" not in inp or "zone" not in inp:
+        return None
+    o = _obs_from_descr(inp["observer"])
+    d = datetime.date.fromisoformat(inp["date"])
+    z = _zone_from_descr(inp["zone"])
+    return checker(o, d, z, m["function"], inp)
+
+
+def seed_C03(m):
+    def chk(o, d, z, fn, inp):
+        extra = {"dep": inp.get("depression", 6.0), "el": inp.get("elevation", 6.0),
+                 "dir": 1 if inp.get("dir", "RISING") == "RISING" else -1}
+        if fn not in C03_FUNCS:
+            return None
+        r = _c03_one(o, d, z, fn, extra)
+        return _descr(o, d, z, function=fn, extra=extra, clause=r) if r else None
+    if m["function"] in ("moonrise", "moonset"):
+        from astral import Observer
+        inp = m["input"]
+        o = Observer(inp["latitude"], inp["longitude"])
+        d = datetime.date.fromisoformat(inp["date"])
+        z = _zone_from_descr(inp["zone"])
+        r = _c03_one(o, d, z, m["function"], {})
+        return _descr(o, d, z, function=m["function"], extra={}, clause=r) if r else None
+    return _seed_sun_event(m, chk)
+
+
+def seed_C07(m):
+    def chk(o, d, z, fn, inp):
+        for di in (1, -1):
+            for daytime in (True, False):
+                try:
+                    r = _c07_one(o, d, z, di, daytime)
+                except ValueError:
+                    r = None
+                if r:
+                    return _descr(o, d, z, dir=di, daytime=daytime, clause=r)
+        return None
+    return _seed_sun_event(m, chk)
+
+
+def seed_C06(m):
+    def chk(o, d, z, fn, inp):
+        if isinstance(o.elevation, tuple):
+            return None
+        r = _c06_one(o, d, z)
+        return _descr(o, d, z, clause=r) if r else None
+    return _seed_sun_event(m, chk)
+
+
+def seed_C01(m):
+    def chk(o, d, z, fn, inp):
+        if isinstance(o.elevation, tuple) or abs(o.latitude) > 89.8:
+            return None
+        out = None
+        for rising in (True, False):
+            for spec in (("dawn_dusk", inp.get("depression", 6.0), True), ("rise_set", None, True),
+                         ("tae", inp.get("elevation", 6.0), inp.get("with_refraction", True))):
+                r = _c01_event(o, d, z, spec[0], spec[1], rising, spec[2])
+                if r:
+                    return _descr(o, d, z, function=spec[0], arg=spec[1], rising=rising,
+                                  with_refraction=spec[2], clause=r)
+        return out
+    return _seed_sun_event(m, chk)
+
+
+def seed_C04(m):
+    def chk(o, d, z, fn, inp):
+        if isinstance(o.elevation, tuple) or abs(o.latitude) > 89.8:
+            return None
+        for rising in (True, False):
+            for f2, dep in (("dawn_dusk", inp.get("depression", 6.0)), ("rise_set", 0.0)):
+                r = _c04_one(o, d, z, f2, dep, rising)
+                if r:
+                    return _descr(o, d, z, function=f2, dep=dep, rising=rising, clause=r)
+        return None
+    return _seed_sun_event(m, chk)
+
+
+def seed_C05(m):
+    inp = m["input"]
+    if m["function"] not in ("noon", "midnight", "sun") or "observer" not in inp:
+        return None
+    o = inp["observer"]
+    d = datetime.date.fromisoformat(inp["date"])
+    z = _zone_from_descr(inp["zone"])
+    import astral.sun as sun
+    from astral import Observer
+    sun.noon(Observer(o["latitude"], o["longitude"]), d)        # a call in UTC first (caches)
+    r = _c05_one(o["latitude"], o["longitude"], d, z)
+    if r:
+        return {"clause": r, "latitude": o["latitude"], "longitude": o["longitude"],
+                "date": d.isoformat(), "zone": z.describe()}
+    return None
+
+
+def seed_C13(m):
+    inp = m["input"]
+    if m["function"] not in ("moonrise", "moonset"):
+        return None
+    r = _c13_one(inp["latitude"], inp["longitude"], datetime.date.fromisoformat(inp["date"]),
+                 _zone_from_descr(inp["zone"]), m["function"])
+    if r:
+        return {"clause": r, "latitude": inp["latitude"], "longitude": inp["longitude"],
+                "date": inp["date"], "zone": inp["zone"], "which": m["function"]}
+    return None
+
+
+def seed_C14(m):
+    inp = m["input"]
+    if m["function"] not in ("moonrise", "moonset"):
+        return None
+    if abs(inp["latitude"]) > 60:
+        return None
+    r = _c14_one(inp["latitude"], inp["longitude"], datetime.date.fromisoformat(inp["date"]),
+                 _zone_from_descr(inp["zone"]), m["function"])
+    if r:
+        return {"clause": r, "latitude": inp["latitude"], "longitude": inp["longitude"],
+                "date": inp["date"], "zone": inp["zone"], "which": m["function"]}
+    return None
